@@ -221,6 +221,25 @@ def run_case(case: dict) -> dict:
             viols += cmp_table(rc.variables, rv, 2e-2, "concentration response coefficient differs from the analytic steady-state sensitivity", {"normalized": normalized, "mode": mode, **ctx})
             viols += cmp_table(rc.fluxes, rf, 2e-2, "flux response coefficient differs from the analytic steady-state sensitivity", {"normalized": normalized, "mode": mode, **ctx})
             counters[f"response:{mode}"] = 1
+        if not moiety and rng.random() < 0.4:
+            # a structurally different network with the same parameter names, values and initial values, analysed in the same
+            # process right afterwards: v2 consumes two y. Its (unscaled) coefficients are its own.
+            spec_b = copy.deepcopy(net["spec"])
+            for c in spec_b["components"]:
+                if c["kind"] == "reaction" and c["name"] == "v2":
+                    c["stoich"] = {"y": -2}
+            model_b = rm.build(spec_b)
+            yb = (p["kin"] / (2.0 * p["k2"])) ** (1 / p["b"])
+            xb = (p["kin"] * (yb if inhib else 1.0) / p["k1"]) ** (1 / p["a"])
+            ssb = {"x": xb, "y": yb}
+            fb = {"vin": p["kin"], "v1": p["kin"], "v2": p["kin"] / 2.0}
+            rv_s, rf_s = response(p, inhib, True)
+            rvb = {q: {v: rv_s[q][v] * ssb[v] / p[q] for v in ssb} for q in rv_s}
+            rfb = {q: {r: rf_s[q][r] * fb[r] / p[q] for r in fb} for q in rf_s}
+            rcb = mca.response_coefficients(model_b, to_scan=["kin", "k1", "k2"], variables=st, normalized=False, disable_tqdm=True, parallel=rng.random() < 0.3)
+            viols += cmp_table(rcb.variables, rvb, 2e-2, "concentration response coefficient of a second network (same parameter values, other structure) differs from its analytic sensitivity", {"normalized": False, **ctx})
+            viols += cmp_table(rcb.fluxes, rfb, 2e-2, "flux response coefficient of a second network (same parameter values, other structure) differs from its analytic sensitivity", {"normalized": False, **ctx})
+            counters["response:second_network_same_values_other_structure"] = 1
         a, b = results["sequential"], results["parallel"]
         if not (np.allclose(a.variables.to_numpy(float), b.variables[a.variables.columns].loc[a.variables.index].to_numpy(float), rtol=1e-9, atol=1e-12)
                 and np.allclose(a.fluxes.to_numpy(float), b.fluxes[a.fluxes.columns].loc[a.fluxes.index].to_numpy(float), rtol=1e-9, atol=1e-12)):
